@@ -437,6 +437,20 @@ def run(tree, rep, tier):
                            m_.name, ast.unparse(bad_[0][0].type) if bad_ and bad_[0][0].type is not None else "everything"))
     from .. import sharedstate
     sharedstate.check(tree, rep, "C06.R0")
+    # the handshake timer (setTimeout(TIMEOUT) in connectionMade) is a resource of the negotiation: whichever role this side plays,
+    # the step that enters the record phase cancels it - or a healthy connection is cut by timeoutConnection() a minute later
+    ns_ = tree.func(TR, "Connection", "_negotiationSuccessful")
+    g_ = build(ns_)
+    cancel_ = g_.call_nodes(lambda c: dotted(c.func) == "self.setTimeout" and len(c.args) == 1 and isinstance(c.args[0], ast.Constant)
+                            and c.args[0].value is None)
+    cm_ = tree.func(TR, "Connection", "connectionMade")
+    armed_ = [c for c in ast.walk(cm_) if isinstance(c, ast.Call) and dotted(c.func) == "self.setTimeout"]
+    rep.check("C06.R9", "Connection._negotiationSuccessful (reached by sender and receiver alike) cancels the handshake timer armed in "
+              "connectionMade, on every path", bool(armed_) and bool(cancel_) and g_.must_pass(cancel_, explicit_only=True), site(ns_, TR),
+              key="C06.R9:_negotiationSuccessful:timer-cancelled",
+              what="the handshake timeout is no longer cancelled for every role when the record phase begins: on the side that does not "
+                   "cancel it, timeoutConnection() drops a healthy established connection after TIMEOUT seconds - records sent after that are "
+                   "never delivered")
     r7(tree, rep)
     r1(tree, rep)
     r2(tree, rep)
@@ -474,3 +488,4 @@ REWRITES = [
 ]
 
 MUTANTS.append(Mutant("receive-record-fast-path-truthy", TR, "    def receive_record(self):\n        d = defer.Deferred()", "    def receive_record(self):\n        record = (self._inbound_records.popleft()\n                  if self._inbound_records else None)\n        if record:\n            return defer.succeed(record)\n        d = defer.Deferred()", "C06.R7"))
+MUTANTS.append(Mutant("handshake-timer-sender-only", TR, "        self.state = \"records\"\n        self.setTimeout(None)\n", "        self.state = \"records\"\n        if self.owner.is_sender:\n            self.setTimeout(None)\n", "C06.R9", "seed C06-17"))
